@@ -1,6 +1,6 @@
 #!/bin/sh
 # verify every /tmp/wt/out/<seed> that has no verify.log yet (sequentially)
-for d in /tmp/wt/out/*-d-*/; do
+for d in /tmp/wt/out/*-[de]-*/; do
   d=${d%/}; [ -f "$d/patch.diff" ] || continue; [ -f "$d/verify.log" ] && continue
   case $(basename "$d") in
     C01*|C04*|C09*|C16*|C17*|C15*) t="joblib/test/test_parallel.py joblib/test/test_config.py";;
